@@ -62,6 +62,7 @@ def run(db, chk):
             # entries are pushed only on the good edge
             pushes = [x for x in f.calls() if x.is_(r"Vec::<T, A>::push$|::push_str$|::extend_from_slice$") and x.block in rb and x.block not in rg]
             chk.ob("invalid-name-not-collected", "CollectEntries::%s" % nm, not pushes, "after a refused component nothing may be collected", c.where(), key="invalid-name-not-collected|%s" % nm)
+    leaf_validation_unconditional(db, chk)
     ft = db.one(r"^gix_index::init::from_tree::<impl gix_index::State>::from_tree$")
     ffl = Flow(ft)
     bf = ft.calls_to(r"gix_traverse::tree::breadthfirst::impl_::traverse$|tree::breadthfirst(::\w+)*$")
@@ -148,3 +149,30 @@ def hfs_ignorable_table(db, chk):
         chk.sample({"hfs_filter": g.name, "dropped": ["%x-%x" % x for x in dropped]})
     if not done:
         chk.anchor_lost("is_dot_hfs: filter predicate evaluable as char -> bool")
+
+
+def leaf_validation_unconditional(db, chk):
+    """git applies the symlinked-.gitmodules rule to the last component of EVERY path, at any depth.  CollectEntries::add_entry is the only place
+    of from_tree that validates with the entry's mode; whether that call happens may depend on `invalid_path` (an earlier refusal) and on the
+    entry's mode, but not on the path's content (depth, prefix, length): no switch that decides whether the call is reached derives from
+    `self.path`.  And the name it validates is cut from `self.path` (the last component)."""
+    f = db.one(r"^gix_index::init::from_tree::CollectEntries::add_entry$")
+    fl = Flow(f)
+    cs = [c for c in f.calls_to(r"^gix_validate::path::component$") if not ("p" not in c.args[1] and c.args[1].get("variant") == "None")]
+    chk.floor("CollectEntries::add_entry: mode-aware component() call", len(cs), 1)
+    for c in cs:
+        bad = []
+        for b in range(len(f.blocks)):
+            t = f.term(b)
+            if t[0] != "switch":
+                continue
+            succ = f.succs(b)
+            reach = [c.block in f.reach_from(x) or x == c.block for x in succ]
+            if not (any(reach) and not all(reach)):
+                continue
+            for r in fl.roots(t[1], stop_named=False):
+                if r[0] == "arg" and r[1] == 1 and any(x in (".path", ".path_deque", ".path_backing") for x in r[2]):
+                    bad.append("line %s: self%s" % (t[5] if len(t) > 5 else "?", "".join(r[2])))
+        chk.ob("leaf-validated-at-any-depth", "add_entry component()@%d" % c.line, not bad,
+               "whether the mode-aware validation runs depends on the path collected so far (%s): symlinked .gitmodules variants below the top level are accepted" % ", ".join(sorted(set(bad))[:2]),
+               c.where(), key="leaf-validation|add_entry")
